@@ -311,6 +311,44 @@ func c13Run(ctx *core.Ctx) {
 			}
 		})
 	}
+	// family C: the first bytes of the document, of a line, of a name: values and column names that start with
+	// bytes a reader might give a meaning to (byte order marks, NUL, comment and formula characters, blanks)
+	for _, pre := range []string{"\ufeff", "\x00", "#", ";", "//", "\xef\xbb", "\xfe\xff", "\xff\xfe", " ", "\t", "=", "+", "-", "@", "%", "\x1a", "\x7f", "\\", "\ufffe", "\u2028"} {
+		for place := 0; place < 3; place++ {
+			for oi, order := range [][]string{nil, {"e", "id", "s"}, {"id", "s", "e"}, {pre + "n", "s"}} {
+				for _, hdr := range []bool{true, false} {
+					for _, en := range []bool{false, true} {
+						if !ctx.Mine() {
+							continue
+						}
+						plain := []string{"b", "abc", "b"}
+						cells := make([]model.Cell, 3)
+						for r := range cells {
+							switch {
+							case place == 2 || place == r:
+								cells[r] = model.S(pre + plain[r])
+							default:
+								cells[r] = model.S(plain[r])
+							}
+						}
+						if place == 1 {
+							cells[2] = model.S(pre) // the prefix alone
+						}
+						f := model.Frame{N: 3, Cols: []model.Col{
+							{Name: "s", Kind: model.String, Cells: cells},
+							{Name: "e", Kind: model.Enum, EnumVals: []string{"b", pre + "b", pre + "abc", "abc", pre}, Cells: cells},
+							{Name: "id", Kind: model.Int, Cells: []model.Cell{model.I(1), model.I(2), model.I(3)}},
+						}}
+						if oi == 3 {
+							// the name of the first column starts with the prefix
+							f.Cols = append([]model.Col{{Name: pre + "n", Kind: model.Int, Cells: []model.Cell{model.I(7), model.I(8), model.I(9)}}}, f.Cols[:1]...)
+						}
+						exec(rtCase{Frame: f, Shape: int(ctx.Index() % int64(model.NShapes)), Header: hdr, Columns: order, EmptyNull: en}, "first-bytes")
+					}
+				}
+			}
+		}
+	}
 	// family B: three columns of every type combination, reduced alphabets, every column permutation for the writer
 	perms := [][]int{{0, 1, 2}, {0, 2, 1}, {1, 0, 2}, {1, 2, 0}, {2, 0, 1}, {2, 1, 0}}
 	names := []string{"a", "b", "c"}
